@@ -372,6 +372,7 @@ def edit_rows_with_position(r, width):
 class Case:
     def __init__(self, ctx, recipe, size, collect, focus=True):
         self.focus = bool(focus)
+        self.key = json.dumps(strip(recipe), sort_keys=True)  # sampling must not depend on generator-only steering keys
         self.ctx = ctx
         self.recipe = recipe
         self.size = tuple(size)
@@ -458,7 +459,7 @@ class Case:
         cells = sorted(o.cellmap)
         if len(cells) <= cap:
             return cells
-        rng = self.ctx.subrng("cells", json.dumps(self.recipe, sort_keys=True), self.size)
+        rng = self.ctx.subrng("cells", self.key, self.size)
         must = set()
         bylf = {}
         for c in cells:
@@ -538,7 +539,7 @@ class Case:
         cells = sorted(o.cellmap)
         if not cells:
             return
-        rng = ctx.subrng("b1", json.dumps(self.recipe, sort_keys=True), self.size)
+        rng = ctx.subrng("b1", self.key, self.size)
         if getattr(ctx, "shrinking", False):
             picks = cells[:150]  # while shrinking, do not depend on which cells a smaller tree happens to sample
         else:
@@ -580,7 +581,7 @@ class Case:
         if not cells:
             ctx.count("c3_no_eligible_cells")
             return
-        rng = ctx.subrng("mv", json.dumps(self.recipe, sort_keys=True), self.size)
+        rng = ctx.subrng("mv", self.key, self.size)
         rng.shuffle(cells)
         cells = cells[: MOVE_CAP[ctx.tier]]
         history = []
@@ -781,6 +782,105 @@ def strip(recipe):
     return recipe
 
 
+def _locate_in(canv, leaf):
+    """top-left of `leaf` inside a canvas, read off that canvas (same rule as observe)"""
+    grid = read_grid(canv)
+    cells = [(x, y) for y, row in enumerate(grid) for x, ch in enumerate(row) if ch == leaf.glyph]
+    if not cells:
+        return None
+    if leaf.kind == "spy":
+        return min(c[0] for c in cells), min(c[1] for c in cells)
+    fx, fy = min(cells, key=lambda c: (c[1], c[0]))
+    return fx - S.REAL_LABEL_OFFSET[leaf.kind], fy
+
+
+def blame(recipe, size, focus, v):
+    """Name the innermost container that already shows the disagreement, by observation only: each ancestor A of the
+    leaf is rendered alone at the size it was observed to be handed, the leaf is located on A's own canvas (which gives
+    A's top-left on the root canvas), and the same operation is put to A directly with translated coordinates.
+    Returns (path-description, mode) of the innermost ancestor that misbehaves, or None (root / not reproducible)."""
+    if v.get("leaf") is None or v["clause"] not in ("c2", "c2b", "c3"):
+        return None
+    op = v["op"]
+    size = tuple(size)
+
+    def setup():
+        log = []
+        with warnings.catch_warnings():
+            warnings.simplefilter("ignore")
+            root = T.build(recipe, log)
+        o = observe(root, size, log, focus)
+        if not o.ok:
+            return None
+        for c_, r_ in op.get("after", []):
+            try:
+                root.w.move_cursor_to_coords(size, c_, r_)
+            except Exception:  # noqa: BLE001
+                return None
+            o = observe(root, size, log, focus)
+            if not o.ok:
+                return None
+        leaf = next((n for n in root.leaves() if n.sid == v["leaf"]), None)
+        if leaf is None or leaf.sid not in o.rects:
+            return None
+        return root, o, log, leaf
+
+    st = setup()
+    if st is None:
+        return None
+    nanc = len(st[3].path_kinds())
+    for depth in range(nanc - 1, 0, -1):  # innermost ancestor first; index 0 is the root itself
+        st = setup()
+        if st is None:
+            return None
+        root, o, log, leaf = st
+        anc = leaf.path_kinds()[depth]
+        sz = o.sizes.get(id(anc.w))
+        if sz is None:
+            continue
+        f_anc = bool(focus) and any(n is anc for n in focus_chain(root))
+        left, top, lcols, lrows = o.rects[leaf.sid]
+        try:
+            with warnings.catch_warnings():
+                warnings.simplefilter("ignore")
+                inner = _locate_in(anc.w.render(sz, f_anc), leaf)
+        except Exception:  # noqa: BLE001
+            continue
+        if inner is None:
+            continue
+        ax, ay = left - inner[0], top - inner[1]
+        c, r = op["col"] - ax, op["row"] - ay
+        lx, ly = op["col"] - left, op["row"] - top
+        del log[:]
+        ok = True
+        try:
+            if op["op"] == "mouse":
+                anc.w.mouse_event(sz, op["event"], op["button"], c, r, f_anc)
+                ent = [e for e in log if e[0] == "mouse"]
+                ok = len(ent) == 1 and ent[0][1] == leaf.sid and (ent[0][5], ent[0][6]) == (lx, ly)
+            else:
+                if not hasattr(anc.w, "move_cursor_to_coords"):
+                    continue
+                ret = anc.w.move_cursor_to_coords(sz, c, r)
+                mine = [e for e in log if e[0] == "move" and e[1] == leaf.sid]
+                if leaf.kind == "spy":
+                    expect = S.accepts(leaf.recipe.get("acc", "all"), lx, ly, lcols, lrows)
+                elif mine and (mine[-1][3], mine[-1][4]) == (lx, ly):
+                    expect = bool(mine[-1][5])
+                else:
+                    expect = ly in edit_rows_with_position(leaf.recipe, leaf.w.last_size[0] if leaf.w.last_size else 0)
+                ok = bool(ret) == expect and not (mine and isinstance(mine[-1][3], int) and (mine[-1][3], mine[-1][4]) != (lx, ly))
+                if ok and ret and hasattr(anc.w, "get_cursor_coords"):
+                    rep_ = anc.w.get_cursor_coords(sz)
+                    if leaf.kind == "spy" or ly in edit_rows_with_position(leaf.recipe, leaf.w.last_size[0] if leaf.w.last_size else 0):
+                        ok = rep_ is not None and rep_[1] == r
+        except Exception:  # noqa: BLE001
+            ok = False
+        if not ok:
+            return node_desc(anc, child_toward(anc, leaf)) + ">" + node_desc(leaf), mode_of(sz)
+    return None
+
+
 def report(ctx, recipe, size, viols, focus=True):
     """shrink each distinct (clause, kind) by descending into subtrees that still show it, then report"""
     done = set()
@@ -802,8 +902,12 @@ def report(ctx, recipe, size, viols, focus=True):
             if not moved:
                 break
         clause = best["clause"]
-        sig = f"C09|{clause}|{best['kind']}|{best.get('mode') or mode_of(s)}|{best['path']}"
-        wit = {"recipe": strip(r), "size": s, "focus": focus, "clause": clause, "kind": best["kind"], "op": best["op"]}
+        path, mode = best["path"], best.get("mode") or mode_of(s)
+        culprit = blame(r, s, focus, best)
+        if culprit is not None:
+            path, mode = culprit
+        sig = f"C09|{clause}|{best['kind']}|{mode}|{path}"
+        wit = {"recipe": strip(r), "size": s, "focus": focus, "clause": clause, "kind": best["kind"], "op": best["op"], "blamed": path}
         ctx.violation(sig, best["msg"] + f"  [root rendered at {tuple(s)}]", wit)
 
 
